@@ -12,6 +12,8 @@ import (
 	"io"
 	"net"
 	"os"
+	"path/filepath"
+	"sort"
 	"strings"
 	"time"
 	"unicode/utf8"
@@ -434,6 +436,10 @@ type Variant struct {
 	Tokens [][]byte // multi-byte units of this format (delimiters, escape pairs)
 	// MultiLine: records span several lines that alias the bufio buffer: more large inputs
 	MultiLine bool
+	// Hier: hierarchical declarations (children, multi-line envelopes before a target): C16 picks these more often
+	Hier bool
+	// Fixed: the input is a fixed sample; C16 uses it undamaged and with more fault positions
+	Fixed bool
 	// FaultGuard (C16 only): if set, the main stream uses un-damaged inputs of this variant and only
 	// fault positions for which it returns true (known finding F27 lives outside the guard).
 	FaultGuard func(in []byte, pos int) bool
@@ -442,17 +448,23 @@ type Variant struct {
 // hfGuard is the guard of known finding F27 (old fixed-length reader, by_header_footer): the fault
 // is between lines, or the torn line still matches what the whole line matched (the fault is not
 // inside the first three bytes "BEG"/"HDR" of a line that starts an envelope).
-func hfGuard(in []byte, pos int) bool {
-	if pos >= len(in) {
+func hfGuard(in []byte, pos int) bool { return markerGuard("BEG", "HDR")(in, pos) }
+
+func markerGuard(markers ...string) func(in []byte, pos int) bool {
+	return func(in []byte, pos int) bool {
+		if pos >= len(in) {
+			return true
+		}
+		start := bytes.LastIndexByte(in[:pos], '\n') + 1
+		off := pos - start
+		line := in[start:]
+		for _, m := range markers {
+			if bytes.HasPrefix(line, []byte(m)) && off > 0 && off < len(m) {
+				return false
+			}
+		}
 		return true
 	}
-	start := bytes.LastIndexByte(in[:pos], '\n') + 1
-	off := pos - start
-	line := in[start:]
-	if off == 0 || off >= 3 {
-		return true
-	}
-	return !(bytes.HasPrefix(line, []byte("BEG")) || bytes.HasPrefix(line, []byte("HDR")))
 }
 
 // hfGen generates header/footer envelopes with three-byte markers: an optional HDR line, then
@@ -700,6 +712,128 @@ func Variants() []Variant {
 				}})
 		}
 	}
+	out = append(out, hierarchicalVariants()...)
+	out = append(out, sampleVariants()...)
+	return out
+}
+
+const foABC = `"transform_declarations": { "FINAL_OUTPUT": { "object": { "a": { "xpath": "a" }, "b": { "xpath": "b", "type": "int" }, "c": { "xpath": "c", "keep_empty_or_null": true }, "n": { "custom_func": { "name": "concat", "args": [ { "xpath": "K[1]/k", "keep_empty_or_null": true }, { "const": "/" }, { "xpath": "K[last()]/k", "keep_empty_or_null": true } ] } } } } }}`
+
+// hierarchicalVariants: targets with optional / repeating children and NO mandatory trailer (an
+// instance is only known complete when the next record shows up, and the end of the input is
+// the only thing that closes the last one), and multi-line envelopes followed by a single-line
+// target -- for EDI, csv2 and fixedlength2.
+func hierarchicalVariants() []Variant {
+	var out []Variant
+	edi := `{"parser_settings": { "version": "omni.2.1", "file_format_type": "edi" }, "file_declaration": { "segment_delimiter": "~", "element_delimiter": "*", "ignore_crlf": true,
+  "segment_declarations": [ { "name": "ORD", "is_target": true, "min": 0, "max": -1,
+      "elements": [ {"name":"a","index":1}, {"name":"b","index":2}, {"name":"c","index":3,"default":""} ],
+      "child_segments": [ { "name": "K", "min": 0, "max": -1, "elements": [ {"name":"k","index":1} ] } ] } ] }, ` + foABC
+	out = append(out, Variant{Name: "edi+nested-no-trailer", FmtIdx: 2, Schema: edi, Hier: true,
+		Gen: func(r *vh.Rng, n int) []byte {
+			var sb strings.Builder
+			for i := 0; i < n; i++ {
+				fmt.Fprintf(&sb, "ORD*%s*%s*%s~", word(r), numOrBad(r), word(r))
+				for k, m := 0, r.Between(0, 3); k < m; k++ {
+					fmt.Fprintf(&sb, "K*%s~", word(r))
+				}
+				if r.Chance(0.3) {
+					sb.WriteString("\n")
+				}
+			}
+			return []byte(sb.String())
+		}})
+	csv2 := `{"parser_settings": { "version": "omni.2.1", "file_format_type": "csv2" }, "file_declaration": { "delimiter": "|", "records": [
+  { "name": "R", "header": "^R", "is_target": true, "columns": [ {"name":"a","index":2}, {"name":"b","index":3}, {"name":"c","index":4} ],
+    "child_records": [ { "name": "K", "header": "^K", "min": 0, "max": -1, "columns": [ {"name":"k","index":2} ] } ] } ] }, ` + foABC
+	out = append(out, Variant{Name: "csv2+nested-no-trailer", FmtIdx: 1, Schema: csv2, Hier: true,
+		Gen: func(r *vh.Rng, n int) []byte {
+			var sb strings.Builder
+			for i := 0; i < n; i++ {
+				fmt.Fprintf(&sb, "R|%s|%s|%s\n", word(r), numOrBad(r), word(r))
+				for k, m := 0, r.Between(0, 3); k < m; k++ {
+					fmt.Fprintf(&sb, "K|%s\n", word(r))
+				}
+			}
+			return []byte(sb.String())
+		}})
+	fl2 := `{"parser_settings": { "version": "omni.2.1", "file_format_type": "fixedlength2" }, "file_declaration": { "envelopes": [
+  { "name": "R", "header": "^R", "is_target": true, "columns": [ {"name":"a","start_pos":2,"length":6}, {"name":"b","start_pos":8,"length":5}, {"name":"c","start_pos":13,"length":6} ],
+    "child_envelopes": [ { "name": "K", "header": "^K", "min": 0, "max": -1, "columns": [ {"name":"k","start_pos":2,"length":6} ] } ] } ] }, ` + foABC
+	out = append(out, Variant{Name: "fixedlength2+nested-no-trailer", FmtIdx: 4, Schema: fl2, Hier: true,
+		Gen: func(r *vh.Rng, n int) []byte {
+			var sb strings.Builder
+			for i := 0; i < n; i++ {
+				sb.WriteString("R" + pad(word(r), 6) + pad(numOrBad(r), 5) + pad(word(r), 6) + "\n")
+				for k, m := 0, r.Between(0, 3); k < m; k++ {
+					sb.WriteString("K" + pad(word(r), 6) + "\n")
+				}
+			}
+			return []byte(sb.String())
+		}})
+	// a multi-line envelope (header/footer, or 3 rows) followed by a target that matches any single line
+	foAB := `"transform_declarations": { "FINAL_OUTPUT": { "object": { "a": { "xpath": "a", "keep_empty_or_null": true }, "b": { "xpath": "b", "keep_empty_or_null": true } } } }}`
+	for _, multi := range []struct{ name, decl string }{
+		{"hf", `{ "name": "M", "header": "^BEG", "footer": "^END", "min": 0, "max": -1 }`},
+		{"rows3", `{ "name": "M", "rows": 3, "min": 0, "max": 1 }`},
+	} {
+		sch := `{"parser_settings": { "version": "omni.2.1", "file_format_type": "fixedlength2" }, "file_declaration": { "envelopes": [ ` + multi.decl + `,
+  { "name": "R", "is_target": true, "min": 0, "max": -1, "columns": [ {"name":"a","start_pos":1,"length":4}, {"name":"b","start_pos":5,"length":8} ] } ] }, ` + foAB
+		rows3 := multi.name == "rows3"
+		out = append(out, Variant{Name: "fixedlength2+multiline-then-single:" + multi.name, FmtIdx: 4, Schema: sch, MultiLine: true, Hier: true,
+			Gen: func(r *vh.Rng, n int) []byte {
+				var sb strings.Builder
+				for i := 0; i < n; i++ {
+					if (rows3 && i == 0) || (!rows3 && r.Chance(0.6)) {
+						fmt.Fprintf(&sb, "BEG%s\n", pad(word(r), 6))
+						body := r.Between(1, 3)
+						if rows3 {
+							body = 1
+						}
+						for l := 0; l < body; l++ {
+							fmt.Fprintf(&sb, "L%d%s\n", l+1, pad(word(r), 8))
+						}
+						fmt.Fprintf(&sb, "END%s\n", pad(word(r), 4))
+					} else {
+						fmt.Fprintf(&sb, "r%s%s\n", pad(word(r), 3), pad(numOrBad(r), 8))
+					}
+				}
+				return []byte(sb.String())
+			}})
+	}
+	return out
+}
+
+// sampleVariants: the repo's own sample schemas and inputs (extensions/omniv21/samples), so that the
+// fault sweep and the schedules also run over realistic hierarchical declarations.
+func sampleVariants() []Variant {
+	repo := os.Getenv("VERIF_REPO")
+	if repo == "" {
+		repo = "/repo"
+	}
+	var out []Variant
+	for i, dir := range []string{"csv", "csv2", "edi", "fixedlength", "fixedlength2", "json", "xml"} {
+		files, _ := filepath.Glob(filepath.Join(repo, "extensions/omniv21/samples", dir, "*.schema.json"))
+		sort.Strings(files)
+		for _, sf := range files {
+			base := strings.TrimSuffix(sf, ".schema.json")
+			ins, _ := filepath.Glob(base + ".input.*")
+			if len(ins) != 1 {
+				continue
+			}
+			schema, err1 := os.ReadFile(sf)
+			input, err2 := os.ReadFile(ins[0])
+			if err1 != nil || err2 != nil {
+				continue
+			}
+			v := Variant{Name: "sample:" + dir + "/" + filepath.Base(base), FmtIdx: i, Schema: string(schema), Fixed: true,
+				Gen: func(r *vh.Rng, n int) []byte { return append([]byte(nil), input...) }}
+			if dir == "fixedlength" && strings.Contains(string(schema), "by_header_footer") {
+				v.FaultGuard = markerGuard("A010", "V010", "Z001") // known finding F27
+			}
+			out = append(out, v)
+		}
+	}
 	return out
 }
 
@@ -724,6 +858,9 @@ func GenInput(r *vh.Rng, v Variant) (in []byte, kind string) {
 
 // GenInputForFaults is GenInput2 for C16: variants with a FaultGuard get un-damaged inputs.
 func GenInputForFaults(r *vh.Rng, v Variant) Input {
+	if v.Fixed {
+		return Input{In: v.Gen(r, 0), Kind: "sample"}
+	}
 	if v.FaultGuard == nil {
 		x := GenInput2(r, v)
 		// line based formats: a final unterminated line of 1-3 bytes (DOS EOF marker Ctrl-Z, a blank,
